@@ -1057,7 +1057,7 @@ func (g *Gen) fnModLocs() []modLoc {
 		return g.modLocs
 	}
 	g.modLocsDone = true
-	if g.fc == nil {
+	if g.fc == nil || !hasModifies(g.fc) {
 		g.modLocs = []modLoc{{all: true}}
 		return g.modLocs
 	}
